@@ -148,7 +148,7 @@ struct VTimer {
   int armed;
   int pending;          // SIGPROF generated, not yet delivered
   int blocked;          // SIGPROF blocked (its handler is running)
-  int pad;
+  int masked;           // SIGPROF blocked through sigprocmask() by the code under test
 };
 static VTimer vt;
 static void (*g_handler)(int) = 0;          // registered through sigaction(SIGPROF)
@@ -188,6 +188,26 @@ extern "C" int sigaction(int sig, const struct sigaction* act, struct sigaction*
   if (oact) { memset(oact, 0, sizeof *oact); oact->sa_handler = g_handler; }
   if (act) g_handler = act->sa_handler;
   return 0;
+}
+
+// sigprocmask: the SIGPROF bit is virtual (a pending virtual SIGPROF is delivered when it gets unblocked,
+// as the kernel does on return from the system call); everything is also forwarded to the real call.
+static void deliver();
+extern "C" int sigprocmask(int how, const sigset_t* set, sigset_t* oset) noexcept {
+  typedef int (*real_t)(int, const sigset_t*, sigset_t*);
+  static real_t real = 0;
+  if (!real) real = (real_t)dlsym(RTLD_NEXT, "sigprocmask");
+  int was = vt.masked;
+  int r = real ? real(how, set, oset) : -1;
+  if (oset) { if (was) sigaddset(oset, SIGPROF); else sigdelset(oset, SIGPROF); }
+  if (r == 0 && set) {
+    int in = sigismember(set, SIGPROF);
+    if (how == SIG_BLOCK) { if (in) vt.masked = 1; }
+    else if (how == SIG_UNBLOCK) { if (in) vt.masked = 0; }
+    else if (how == SIG_SETMASK) vt.masked = in ? 1 : 0;
+    if (was && !vt.masked && vt.pending) { HarnessScope hs; deliver(); }
+  }
+  return r;
 }
 
 // ======================================================================================
@@ -303,7 +323,7 @@ static void dead_dtor(void*) { HarnessScope hs; viol("Watchdog::~Watchdog", "des
 static char* g_api_sp = 0;     // stack address at entry of the outermost code-under-test region
 
 static void deliver() {
-  while (vt.pending && !vt.blocked) {
+  while (vt.pending && !vt.blocked && !vt.masked) {
     vt.pending = 0; vt.blocked = 1;
     bool crit = WDG::in_critical_section;
     logev(crit ? 'd' : 'H', M.api_kind);
@@ -335,9 +355,9 @@ static void advance_clock(usec_t delta) {
       vt.clock += step; remaining -= step;
       if (vt.interval > 0) vt.expiry = vt.clock + vt.interval; else vt.armed = 0;
       vt.pending = 1;
-      if (vt.blocked) { if (vt.interval > 0) { vt.armed = 0; } }
+      if (vt.blocked || vt.masked) { if (vt.interval > 0) { vt.armed = 0; } }
       else deliver();
-      if (vt.blocked) break;
+      if (vt.blocked || vt.masked) break;
       continue;
     }
     break;
@@ -472,6 +492,8 @@ static void snapshot_statics() {
 static void hard_reset() {
   for (size_t i = 0; i < g_statics.size(); ++i) memcpy(g_statics[i].addr, g_statics[i].img.data(), g_statics[i].size);
   arena_reset();
+  { int was_masked = vt.masked; vt.pending = 0;
+    if (was_masked) { sigset_t m; sigemptyset(&m); sigaddset(&m, SIGPROF); sigprocmask(SIG_UNBLOCK, &m, 0); } }
   memset(&vt, 0, sizeof vt);
   memset(&M, 0, sizeof M);
   M.holder_model = -1;
@@ -506,6 +528,7 @@ static ListWalk walk(DLO* sentinel) {
 static void quiescent_checks(const char* site, bool final_state) {
   // flags
   if (WDG::in_critical_section) viol(site, "flag_invariant:in_critical_section_left_set", "in_critical_section is true outside the constructor/destructor");
+  if (vt.masked) viol(site, "flag_invariant:SIGPROF_left_blocked", "SIGPROF is still blocked (sigprocmask) outside the constructor/destructor");
   DLO* act_s = (DLO*)&WDG::pending.active_list;
   DLO* free_s = (DLO*)&WDG::pending.free_list;
   ListWalk a = walk(act_s), f = walk(free_s);
